@@ -17,7 +17,7 @@ def run(m, chk):
         "(Bezier/spline x rational/non-rational exhaustively); the degree-0 branch returns a curve on the curve's limits built from 0 * ctrlpoints[0]; the result depends on knot vector, "
         "control points and — on rational branches — weights. The derivative values and the quotient-rule algebra are not decided."
     )
-    chk.decides = ["PURE", "FRESH", "EXHAUSTIVE dispatch", "DEP-MAY", "degree-0 branch shape"]
+    chk.decides = ["PURE", "FRESH", "EXHAUSTIVE dispatch", "DEP-MAY", "degree-0 branch shape", 'INTERVAL (the derivative lives on the operand knot values)']
     chk.not_decided = ["D(u) = dC/du as values", "quotient rule algebra", "knot vector of the derivative"]
     for f in FUNCS:
         r.pure("PURE", D + f, ["curve"])
